@@ -18,8 +18,10 @@ deriving Repr, Inhabited
 
 def searchVar (vars : List Var) (name : Str) : Option Nat := vars.findIdx? (·.name = name)
 
-def renameAt (vars : List Var) (i : Nat) (f : Str → Str) : List Var :=
-  vars.modify i (fun v => { v with name := f v.name })
+def renameAt : List Var → Nat → (Str → Str) → List Var
+  | [], _, _ => []
+  | v :: vs, 0, f => { v with name := f v.name } :: vs
+  | v :: vs, n + 1, f => v :: renameAt vs n f
 
 /-- `populateImports`: `AddImport` for every package met, in traversal order; the variable
     remembers the stripped paths with a non-nil result (once each). -/
@@ -62,25 +64,34 @@ inductive Fail
   | sliceBounds      -- `s[:1]` on an empty string / `TypeString()[2:]` too short
 deriving DecidableEq, Repr
 
+/-- the naming half of `AddVar`: with the imports of the variable's type registered (`r1`,
+    `paths`), rename earlier variables that equal a new qualifier, derive the name, avoid
+    import qualifiers (`MoqParam`) and earlier variables (numbering) -/
+def nameVar (o : Ord) (r1 : Registry) (sc : Scope) (paths : List Str) (vname : Str) (t : Ty)
+    (suffix : Str) : Except Fail Scope :=
+  let quals := (o.st paths).map r1.qualOf
+  let vars1 := resolveImportVarConflicts sc.vars quals
+  match varName vname t suffix with
+  | none => .error .sliceBounds
+  | some n0 =>
+    let n1 := if (searchIn (o.pk r1.imports) n0).isSome then n0 ++ moqParamSuffix else n0
+    let sc1 : Scope := { sc with vars := vars1 }
+    if (searchVar vars1 n1).isSome || n1 ∈ sc1.conflicted then
+      match resolveVarNameConflict sc1 n1 (vars1.length + 2) 1 with
+      | none => .error .nilDeref
+      | some (sc2, n2) =>
+        .ok { sc2 with vars := sc2.vars ++ [{ name := n2, ty := t, imports := paths }] }
+    else
+      .ok { sc1 with vars := vars1 ++ [{ name := n1, ty := t, imports := paths }] }
+
 /-- method_scope.go `AddVar`. -/
 def addVar (o : Ord) (fuel : Nat) (r : Registry) (sc : Scope) (vname : Str) (t : Ty)
     (suffix : Str) : Except Fail (Registry × Scope) :=
   match populateImports o fuel r (Ty.pkgsOf t) with
   | none => .error .diverge
   | some (r1, paths) =>
-    let quals := (o.st paths).map r1.qualOf
-    let vars1 := resolveImportVarConflicts sc.vars quals
-    match varName vname t suffix with
-    | none => .error .sliceBounds
-    | some n0 =>
-      let n1 := if (searchIn (o.pk r1.imports) n0).isSome then n0 ++ moqParamSuffix else n0
-      let sc1 : Scope := { sc with vars := vars1 }
-      if (searchVar vars1 n1).isSome || n1 ∈ sc1.conflicted then
-        match resolveVarNameConflict sc1 n1 (vars1.length + 2) 1 with
-        | none => .error .nilDeref
-        | some (sc2, n2) =>
-          .ok (r1, { sc2 with vars := sc2.vars ++ [{ name := n2, ty := t, imports := paths }] })
-      else
-        .ok (r1, { sc1 with vars := vars1 ++ [{ name := n1, ty := t, imports := paths }] })
+    match nameVar o r1 sc paths vname t suffix with
+    | .error f => .error f
+    | .ok sc' => .ok (r1, sc')
 
 end Moq
